@@ -173,11 +173,28 @@ impl Space for CliVsLib {
         let scratch = crate::util::verif_root().join("target/tmp").join(format!("w{}", std::process::id())).join("case.ns");
         let mut runs = 0;
         for build in [Build::Dev, Build::Release] {
-            for mode in 0..3 {
+            // cut points for the piecewise stdin delivery: the middle of the text (moved to a
+            // character boundary) and, for long scripts, offset 8192
+            let mut mid = src.len() / 2;
+            while mid > 0 && !src.is_char_boundary(mid) {
+                mid -= 1;
+            }
+            let mut cuts = vec![mid];
+            if src.len() > 8200 && src.is_char_boundary(8192) {
+                cuts = vec![mid.min(8192), 8192.max(mid)];
+                cuts.dedup();
+            }
+            cuts.retain(|&c| c > 0 && c < src.len());
+            for mode in 0..4 {
+                // the piecewise mode needs real waiting: release build only
+                if mode == 3 && (build == Build::Dev || cuts.is_empty()) {
+                    continue;
+                }
                 let (input, filename) = match mode {
                     0 => (Input::File(&src), scratch.display().to_string()),
                     1 => (Input::Eval(&src), "<eval>".to_string()),
-                    _ => (Input::Stdin(&src), "<stdin>".to_string()),
+                    2 => (Input::Stdin(&src), "<stdin>".to_string()),
+                    _ => (Input::StdinPieces(&src, &cuts), "<stdin>".to_string()),
                 };
                 let want = match lib_expect(ctx, &src, &filename) {
                     Ok(w) => w,
@@ -186,7 +203,7 @@ impl Space for CliVsLib {
                 let r = cli::run(build, input, None, Duration::from_secs(120));
                 runs += 1;
                 let input_desc = src.clone();
-                let tag = format!("{} {}", build.name(), ["file", "--eval", "stdin"][mode]);
+                let tag = format!("{} {}", build.name(), ["file", "--eval", "stdin", "stdin-in-pieces"][mode]);
                 let bad = |class: &str, detail: serde_json::Value| {
                     let mut v = Violation::new(class, input_desc.clone(), json!({"how": tag, "detail": detail}));
                     v.signature = format!("{class} :: {input_desc}");
